@@ -184,6 +184,29 @@ def check_join_at_claim(h: History, program: Any) -> list[dict[str, Any]]:
                     ups = {d: status.get(h.ref_to_id.get(d, ""), "?") for d in deps}
                     ok, why = _join_ok(sp, ups, e)
                     if not ok:
+                        # was the join met when this handling *read* its upstreams?  The handler reads after it took the
+                        # message (poll commit) and claims a few statements later; a concurrent JumpToStage that re-arms an
+                        # upstream in between is not seen by the claim (its compare-and-swap covers the stage's own row)
+                        mid = ctx_msgid(r["ctx"])
+                        polled = max((q["seq"] for q in h.audit if q["kind"] == "q_lock" and q["row_id"] == mid and q["seq"] < r["seq"]
+                                      and (q["extra"] or {}).get("a_new") != (q["extra"] or {}).get("a_old")), default=None)
+                        raced = []
+                        if polled is not None:
+                            ups_then = dict(ups)
+                            for q in h.audit:
+                                if polled < q["seq"] < r["seq"] and q["kind"] == "stage" and q["new"] == "NOT_STARTED" \
+                                        and ctx_handler(q["ctx"]) == "JumpToStage":
+                                    d = (h.stage_info.get(q["row_id"]) or {}).get("ref")
+                                    if d in ups_then:
+                                        ups_then[d] = q["old"]
+                                        raced.append(d)
+                            if raced and _join_ok(sp, ups_then, e)[0]:
+                                out.append(V("C03", "claimed-before-join",
+                                             f"stage {ref} ({sp.get('join', 'AND')}) left NOT_STARTED with upstream {ups}: {why}; the join was "
+                                             f"met when the handler read it, a concurrent jump re-armed {raced} before the claim commit",
+                                             sig=f"C03:claim-raced-with-jump-rearm:{sp.get('join', 'AND')}", seq=r["seq"]))
+                                status[sid] = new
+                                continue
                         out.append(V("C03", "claimed-before-join",
                                      f"stage {ref} ({sp.get('join', 'AND')}) left NOT_STARTED with upstream {ups}: {why}",
                                      sig=f"C03:claim:{sp.get('join', 'AND')}", seq=r["seq"]))
